@@ -36,7 +36,7 @@ CLAIMS = {
         "approximation-kind abstract domain (OVER/UNDER/DIST by provenance) over every early return of the overlap/containment tests",
         "Decides shortcut polarity: every constant early return of MeshVolumeRegion.intersects/containsObject, footprint containment and the "
         "planar-box fast paths is dominated by a guard whose provenance-classified quantities prove that answer (radii and distances must be measured from the same reference point; an extent refutes containment only if a real point of the operand attains it), every computed early answer is one of a frozen list of exact predicates, precomputed shape data is moved with its own transform; fall-through paths end in the "
-        "exhaustive computation. Does NOT decide numerical agreement with exact geometry.",
+        "exhaustive computation; a positive surface gap is reported as minimum distance only for convex operands or after the exact overlap test. Does NOT decide numerical agreement with exact geometry.",
         "DESIGN.md section 3 C04",
     ),
     "C05": (
